@@ -8,6 +8,7 @@ import (
 	"go/token"
 	"go/types"
 	"os"
+	"runtime"
 	"runtime/debug"
 	"sort"
 	"strings"
@@ -258,6 +259,7 @@ type ctx struct {
 	assumed       map[string]bool   // trusted items actually used
 	depthCap      int
 	closureRef    map[string]string
+	pruneQueries  int
 	siteArgs      []val          // operands of the call at which site assertions are being evaluated
 	fnVals        map[string]val // reference term of a function value stored in memory -> the function value
 	inheriting    int            // > 0 while a chain of delegating wrappers is executed for a function that delegates to its head
@@ -1477,6 +1479,16 @@ func (x *ctx) run(st *state, fr *frame, b *ssa.BasicBlock, idx int, prev *ssa.Ba
 			if live > 1 && os.Getenv("GOVC_TRACE_IF") != "" && x.spec == 0 {
 				debugf("IF %s.%s: %s", fr.fn.Name(), b.Comment, c.s)
 			}
+			if live > 1 && x.spec == 0 && x.con != nil && x.con.Flags["prune-paths"] {
+				// prune-paths: a branch whose condition contradicts the path condition is dropped (one solver query per
+				// branch; for functions whose many correlated conditions would otherwise be enumerated as independent)
+				for bi, cond := range conds {
+					if cond != "false" && cond != "true" && !x.feasible(st, cond) {
+						conds[bi] = "false"
+						live--
+					}
+				}
+			}
 			for bi, cond := range conds {
 				if cond == "false" {
 					continue
@@ -1486,6 +1498,9 @@ func (x *ctx) run(st *state, fr *frame, b *ssa.BasicBlock, idx int, prev *ssa.Ba
 					x.forks++
 					if x.forks > 60000 {
 						x.fail("exploration budget exceeded in %s (more than 60000 branch forks while executing %s): a loop without an invariant in an inlined helper, or a path explosion", x.fn, fr.fn)
+					}
+					if x.forks > 2000 && x.forks%256 == 0 && memoryExhausted() {
+						x.fail("exploration budget exceeded in %s (memory, while executing %s): a loop without an invariant in an inlined helper, or a path explosion", x.fn, fr.fn)
 					}
 					ns, nfr = st.clone(), fr.clone()
 				}
@@ -1667,4 +1682,44 @@ func (x *ctx) assumeFreshRef(st *state, r term) {
 		st.assume(not(eq(r, o)))
 	}
 	x.allocated = append(x.allocated, r)
+}
+
+// memoryExhausted: the process heap has grown beyond the exploration budget (all functions verified in parallel share it).
+func memoryExhausted() bool {
+	var ms runtime.MemStats
+	runtime.ReadMemStats(&ms)
+	return ms.HeapAlloc > memoryBudget()
+}
+
+var memBudget uint64
+
+// memoryBudget: half of the machine's memory (at least 8 GiB); only functions that have already forked more than 2000
+// times are stopped when the heap passes it, so a function that explodes does not take the others with it.
+func memoryBudget() uint64 {
+	if memBudget == 0 {
+		memBudget = 8 << 30
+		if b, err := os.ReadFile("/proc/meminfo"); err == nil {
+			var kb uint64
+			if _, err := fmt.Sscanf(string(b), "MemTotal: %d kB", &kb); err == nil && kb*512 > memBudget {
+				memBudget = kb * 512
+			}
+		}
+	}
+	return memBudget
+}
+
+// feasible: the path condition of st together with cond is satisfiable (or the solver does not know).
+func (x *ctx) feasible(st *state, cond string) bool {
+	var b strings.Builder
+	for _, d := range x.decls {
+		b.WriteString(d)
+		b.WriteByte('\n')
+	}
+	for _, p := range st.pc {
+		b.WriteString("(assert " + p.t + ")\n")
+	}
+	b.WriteString("(assert " + cond + ")\n")
+	sr := solve(b.String(), nil, 3, []string{"z3-new"})
+	x.pruneQueries++
+	return sr.Status != "unsat"
 }
